@@ -54,3 +54,113 @@ contract(
                "types": {"eqs": "Seq[Stmt]"}}},
     properties=("C05", "C04", "C12"),
 )
+
+# --- sympytools.Conditional (interface; verified in c_sympytools.py) ------------------------------
+T = "gotranx.sympytools."
+contract(
+    T + "Conditional",
+    params={"cond": "Sym", "true_value": "Sym", "false_value": "Sym"},
+    ret="Sym",
+    raises={"TypeError": "not (sp_is_relational(cond) or sp_is_boolean(cond))"},
+    ensures={"piecewise": "result == ite(sp_is_true(cond), true_value, ite(sp_is_false(cond), false_value, Piecewise2(true_value, cond, false_value)))"},
+)
+
+
+def _cls_pred(name, classes):
+    from .models import sp_cls, SP_CLASSES, TSym
+
+    @registry.spec(name)
+    def f(ctx, st, e):
+        return SV(TBool, z3.Or(*[sp_cls(sym(e).t) == SP_CLASSES.index(c) for c in classes]))
+
+
+_cls_pred("sp_is_relational", ["Relational"])
+_cls_pred("sp_is_boolean", ["Boolean", "BooleanTrue", "BooleanFalse"])
+_cls_pred("sp_is_true", ["BooleanTrue"])
+_cls_pred("sp_is_false", ["BooleanFalse"])
+
+contract(
+    S + "fraction_numerator_is_nonzero", params={"expr": "Sym"}, ret="Bool",
+)  # strengthened (denotational postcondition) and verified in c_schemes_den.py
+
+
+@registry.spec("frac_nonzero")
+def _frac_nonzero(ctx, st, g):
+    return ctx.call_contract(registry.CONTRACTS[S + "fraction_numerator_is_nonzero"], [g], {}, st)
+
+
+@registry.spec("Conditional")
+def _Conditional(ctx, st, c, a, b):
+    return ctx.call_contract(registry.CONTRACTS[T + "Conditional"], [c, a, b], {}, st)
+
+
+# --- Rush-Larsen spec ------------------------------------------------------------------------------
+defspec("rl_term", {"x": "Atom", "dt": "Sym", "delta": "Real"}, "Sym", """
+def rl_term(x, dt, delta):
+    lin = Symbol(x.name + "_linearized")
+    RL = x.symbol / lin * (exp(lin * dt) - 1)
+    if frac_nonzero(diff(x.expr, x.state.symbol)):
+        return RL
+    return Conditional(abs(lin) > delta, RL, dt * x.symbol)
+""")
+
+defspec("grl_stmts", {"x": "Atom", "dt": "Sym", "vname": "Name", "slot": "Int", "delta": "Real"}, "Seq[Stmt]", """
+def grl_stmts(x, dt, vname, slot, delta):
+    g = diff(x.expr, x.state.symbol)
+    if is_zero(g):
+        return [euler_stmt(x, dt, vname, slot)]
+    lin = Symbol(x.name + "_linearized")
+    return [Assign(lin, g, True), Assign(Indexed(vname, slot), x.state.symbol + rl_term(x, dt, delta), False)]
+""")
+
+defspec("grl_emit", {"SA": "Seq[Atom]", "dt": "Sym", "vname": "Name", "delta": "Real", "j": "Int"}, "Seq[Stmt]", """
+def grl_emit(SA, dt, vname, delta, j):
+    if j <= 0:
+        return empty("Seq[Stmt]")
+    x = SA[j - 1]
+    head = grl_emit(SA, dt, vname, delta, j - 1) + [Assign(x.symbol, x.expr, True)]
+    if is_sd(x):
+        return head + grl_stmts(x, dt, vname, count_sd(SA, j - 1), delta)
+    return head
+""")
+
+defspec("hybrid_emit", {"SA": "Seq[Atom]", "dt": "Sym", "vname": "Name", "delta": "Real", "stiff": "Set[Name]", "j": "Int"}, "Seq[Stmt]", """
+def hybrid_emit(SA, dt, vname, delta, stiff, j):
+    if j <= 0:
+        return empty("Seq[Stmt]")
+    x = SA[j - 1]
+    head = hybrid_emit(SA, dt, vname, delta, stiff, j - 1) + [Assign(x.symbol, x.expr, True)]
+    if is_sd(x):
+        if x.state.name in stiff:
+            return head + grl_stmts(x, dt, vname, count_sd(SA, j - 1), delta)
+        return head + [euler_stmt(x, dt, vname, count_sd(SA, j - 1))]
+    return head
+""")
+
+contract(
+    S + "generalized_rush_larsen",
+    params={"ode": "ODE", "dt": "Sym", "name": "Name", "printer": "Fn:printer", "remove_unused": "Bool", "delta": "Real"},
+    ret="Seq[Stmt]",
+    where={"SA": "ode.sorted_assignments(True, remove_unused)"},
+    raises={"GotranxError": "ode_has_none_value(ode)", "CycleError": "ode_cyclic(ode)"},
+    ensures={"result_is_grl_emit": "result == grl_emit(SA, dt, name, delta, len(SA))"},
+    loops={0: {"invariant": {"eqs": "eqs == grl_emit(SA, dt, name, delta, k)", "slot": "i == count_sd(SA, k)"},
+               "types": {"eqs": "Seq[Stmt]"}}},
+    properties=("C06", "C04", "C12"),
+)
+
+defspec("stiff_set", {"stiff_states": "Opt[Seq[Name]]"}, "Set[Name]")
+
+contract(
+    S + "hybrid_rush_larsen",
+    params={"ode": "ODE", "dt": "Sym", "name": "Name", "printer": "Fn:printer", "remove_unused": "Bool", "delta": "Real",
+            "stiff_states": "Opt[Seq[Name]]"},
+    ret="Seq[Stmt]",
+    where={"SA": "ode.sorted_assignments(True, remove_unused)",
+           "STIFF": "ite(stiff_states is None, empty('Set[Name]'), set(stiff_states))"},
+    raises={"GotranxError": "ode_has_none_value(ode)", "CycleError": "ode_cyclic(ode)"},
+    ensures={"result_is_hybrid_emit": "result == hybrid_emit(SA, dt, name, delta, STIFF, len(SA))"},
+    loops={0: {"invariant": {"eqs": "eqs == hybrid_emit(SA, dt, name, delta, STIFF, k)", "slot": "i == count_sd(SA, k)"},
+               "types": {"eqs": "Seq[Stmt]", "found_stiff_states_set": "Set[Name]"}}},
+    properties=("C07", "C06", "C04", "C12"),
+)
